@@ -626,7 +626,6 @@ impl IggyConsumer {
                 } else {
                     consumed_offset = 0;
                     has_consumed_offset = false;
-                    last_consumed_offset.insert(partition_id, AtomicU64::new(0));
                 }
 
                 if !allow_replay && has_consumed_offset {
